@@ -35,8 +35,8 @@ def plan(tier, seed):
     quick = tier == "quick"
     return {
         "nshards": 16,
-        "params": {"soft_s": 75 if quick else 800, "script_len": 10 if quick else 20},
-        "hard_timeout_s": 400 if quick else 3000,
+        "params": {"soft_s": 300 if quick else 1200, "nprograms": 12 if quick else 140, "script_len": 10 if quick else 20},
+        "hard_timeout_s": 700 if quick else 3400,
     }
 
 
@@ -46,7 +46,7 @@ def shard(ctx):
 
 
 def finish(agg, tier):
-    cov, inc = per_op_coverage(agg, 30 if tier == "quick" else 45)
+    cov, inc = per_op_coverage(agg, 20 if tier == "quick" else 40)
     for k in ("forward.evals", "forward.identity_ok", "forward.invalidated", "forward.rebuilt_resolves", "forward.block_ok", "forward.gap_ok", "forward.chains", "forward.implicit_evals", "forward.implicit_both_ok"):
         cov[k.replace(".", "_")] = agg.stats.get(k, 0)
     if agg.stats.get("forward.identity_ok", 0) < 2000:
